@@ -20,21 +20,21 @@ type VC struct {
 }
 
 type Obligation struct {
-	Name    string
-	Func    string // pkg-qualified function key
-	Kind    string
-	Ord     int
-	Desc    string
-	Pos     string
-	VCs     []*VC
-	Clause  string
+	Name       string
+	Func       string // pkg-qualified function key
+	Kind       string
+	Ord        int
+	Desc       string
+	Pos        string
+	VCs        []*VC
+	Clause     string
 	Abstracted bool
 	// results
-	Status   string // discharged | refuted | unknown | trivial
-	Solver   string
-	Ms       int64
-	Model    string
-	SMTFile  string
+	Status     string // discharged | refuted | unknown | trivial
+	Solver     string
+	Ms         int64
+	Model      string
+	SMTFile    string
 	Restricted string // known-finding restriction applied
 }
 
@@ -50,17 +50,17 @@ type deferred struct {
 }
 
 type Frame struct {
-	fn     *ssa.Function
-	regs   map[ssa.Value]*Val
-	names  map[string]nameBind
-	defers []deferred
-	cont   func(st *State, res []*Val)
-	pcont  func(st *State) // panic continuation (nil: top-level handling)
-	isTop  bool
-	depth  int
-	params []*Val
-	results []*Val // set at return for top frame spec evaluation
-	oldHeap *Heap
+	fn           *ssa.Function
+	regs         map[ssa.Value]*Val
+	names        map[string]nameBind
+	defers       []deferred
+	cont         func(st *State, res []*Val)
+	pcont        func(st *State) // panic continuation (nil: top-level handling)
+	isTop        bool
+	depth        int
+	params       []*Val
+	results      []*Val // set at return for top frame spec evaluation
+	oldHeap      *Heap
 	namedResults map[string]*Val
 }
 
@@ -118,16 +118,16 @@ func (h *Heap) get(name string, sort Sort) *Term {
 }
 
 type State struct {
-	heap    *Heap
-	pc      []*Term
-	frames  []*Frame
-	trace   []Event
-	ghost   map[string]*Val // ghost bindings from trace ... bind
-	locks   []*Term         // lock ids touched on this path
-	fresh   map[*Term]bool  // refs allocated on this path
-	from    string
-	steps   int
-	dead    bool
+	heap      *Heap
+	pc        []*Term
+	frames    []*Frame
+	trace     []Event
+	ghost     map[string]*Val // ghost bindings from trace ... bind
+	locks     []*Term         // lock ids touched on this path
+	fresh     map[*Term]bool  // refs allocated on this path
+	from      string
+	steps     int
+	dead      bool
 	callNames map[string]nameBind
 	prevHeap  *Heap
 	prevNames map[string]nameBind
@@ -207,25 +207,25 @@ func (st *State) assume(t *Term) {
 // ---------------- engine ----------------
 
 type PropConfig struct {
-	ID       string
-	Mode     string            // "seq" | "conc"
-	Layers   map[string]bool   // safety, overflow, contract, lock, trace, frame
+	ID     string
+	Mode   string          // "seq" | "conc"
+	Layers map[string]bool // safety, overflow, contract, lock, trace, frame
 }
 
 type Engine struct {
-	prog   *ssa.Program
-	pkgs   map[string]*ssa.Package
-	db     *ContractDB
-	prop   string
-	cfg    *PropConfig
-	obls   map[string]*Obligation
-	order  []string
-	abslog []string
-	abset  map[string]bool
-	funcsDone []string
-	engineErrors []string
+	prog          *ssa.Program
+	pkgs          map[string]*ssa.Package
+	db            *ContractDB
+	prop          string
+	cfg           *PropConfig
+	obls          map[string]*Obligation
+	order         []string
+	abslog        []string
+	abset         map[string]bool
+	funcsDone     []string
+	engineErrors  []string
 	curAbstracted *bool
-	passConc      bool            // mode "both": second pass emits only lock-layer obligations
+	passConc      bool // mode "both": second pass emits only lock-layer obligations
 	both          bool
 	immutableHeap map[string]bool // heap array names of fields declared immutable
 	axiomsDone    bool
@@ -248,28 +248,28 @@ func (e *Engine) logAbs(format string, a ...interface{}) {
 }
 
 type fnCtx struct {
-	eng     *Engine
-	fn      *ssa.Function
-	con     *Contract
-	key     string // pkgpath.FuncKey
-	short   string // pkgname.FuncKey
-	headers map[*ssa.BasicBlock]int
-	hdrList []*ssa.BasicBlock
-	siteOrd map[ssa.Instruction]int
-	paths   int
-	writes  map[string]bool // heap arrays written anywhere in the function (for loop havoc)
-	collecting bool
-	abstracted bool
-	maxPaths int
-	loopNames map[*ssa.BasicBlock]map[string]nameBind
+	eng         *Engine
+	fn          *ssa.Function
+	con         *Contract
+	key         string // pkgpath.FuncKey
+	short       string // pkgname.FuncKey
+	headers     map[*ssa.BasicBlock]int
+	hdrList     []*ssa.BasicBlock
+	siteOrd     map[ssa.Instruction]int
+	paths       int
+	writes      map[string]bool // heap arrays written anywhere in the function (for loop havoc)
+	collecting  bool
+	abstracted  bool
+	maxPaths    int
+	loopNames   map[*ssa.BasicBlock]map[string]nameBind
 	unroll      int // > 0: bounded mode, loops unrolled (counterexample search only)
 	lastParams  []*Val
 	bindOutside map[*TraceDecl]bool
-	curBlock  *ssa.BasicBlock // top-frame position being executed (for write positions)
-	curIdx    int
-	writePos  map[string][]wpos
-	curHeader *ssa.BasicBlock // header the current path started from (nil: entry)
-	loopBlk   map[*ssa.BasicBlock]map[*ssa.BasicBlock]bool
+	curBlock    *ssa.BasicBlock // top-frame position being executed (for write positions)
+	curIdx      int
+	writePos    map[string][]wpos
+	curHeader   *ssa.BasicBlock // header the current path started from (nil: entry)
+	loopBlk     map[*ssa.BasicBlock]map[*ssa.BasicBlock]bool
 }
 
 type wpos struct {
